@@ -42,6 +42,7 @@ class FakeSocket:
         self.rx = []          # queued incoming items: bytes-like | ('eof',) | ('err', errno)
         self.so_error = 0
         self.writable = False
+        self.peer_gone = False    # stream: the peer's FIN has been read; later writes reach nobody
         self.sent = []
         world.sockets[self.fd] = self
         world.all_sockets[self.fd] = self
@@ -123,6 +124,7 @@ class FakeSocket:
         if isinstance(item, tuple) and item[0] == "err":
             raise OSError(item[1], f"scripted receive error {item[1]}")
         if isinstance(item, tuple) and item[0] == "eof":
+            self.peer_gone = True
             return b""
         return item
 
@@ -246,6 +248,8 @@ class World:
         self.events.append(("tx", self.now, sock.fd, data))
         if self.max_transmissions is not None and len(self.transmissions) > self.max_transmissions:
             raise LiveLock(f"more than {self.max_transmissions} transmissions")
+        if sock.peer_gone and not sock.is_dgram:
+            return 0     # written into a connection the peer has closed: accepted by the kernel, answered by nobody
         if self.peer_send:
             return self.peer_send(sock, data, len(self.transmissions) - 1) or 0
         return 0
